@@ -111,11 +111,27 @@ func matchType(type1, type2 types.Type) (bool, bool) {
 	same := shoot.TypeEquals(type1, type2)
 	conv := types.ConvertibleTo(type1, type2)
 	if !same && conv {
-		if mayMisConv(type1, type2) {
+		if mayMisConv(type1, type2) || mayPanicConv(type1, type2) {
 			conv = false
 		}
 	}
 	return same, conv
+}
+
+// mayPanicConv returns true for the one conversion Go checks at run time: a slice to an array
+// or to a pointer to an array panics when the slice is shorter than the array (a nil slice always is).
+func mayPanicConv(from, to types.Type) bool {
+	if _, ok := from.Underlying().(*types.Slice); !ok {
+		return false
+	}
+	switch t := to.Underlying().(type) {
+	case *types.Array:
+		return true
+	case *types.Pointer:
+		_, ok := t.Elem().Underlying().(*types.Array)
+		return ok
+	}
+	return false
 }
 
 // mayMisConv returns true if ta and tb are convertible between string and fixed-width integers.
